@@ -224,7 +224,10 @@ pub fn install_hook_recorder() {
         let mut m = serde_json::Map::new();
         m.insert("ev".into(), json!(name));
         for (k, v) in args {
-            m.insert((*k).into(), json!(*v));
+            // TLC integers are 32-bit: a value beyond any page or transaction id the harness can reach
+            // (u64::MAX as "no bound", a wrapped subtraction) is recorded as 2e9 -- still larger than
+            // everything it is compared with
+            m.insert((*k).into(), json!((*v).min(2_000_000_000)));
         }
         emit(Value::Object(m));
     })));
